@@ -273,7 +273,7 @@ def gen_case(rng, tier, force=None):
 
 
 def cases(rng, tier):
-    n = 120 if tier == 'quick' else 1200
+    n = 300 if tier == 'quick' else 3000
     out = []
     # a deterministic head that always exercises both layouts x flattening x the directory layouts
     for layout, flatten in (('top', True), ('mixed', True), ('flip', True), ('onedir', False), ('common', False)):
